@@ -3,7 +3,7 @@
    of package sms instantiated with the struct layouts regenerated from the
    running code (Model/TpduRun.v); the harness evaluates exactly these functions
    on every input the implementation ran (harness/c18.go). *)
-From V Require Import Model.TpduRun Proofs.TpduTotal Model.TpduReader Proofs.TpduReader.
+From V Require Import Model.TpduRun Proofs.TpduTotal Model.TpduReader Model.TpduReaderRun Proofs.TpduReader Proofs.TpduReaderCompose.
 Open Scope N_scope.
 
 (* For every octet list (no size bound, no assumption on the octets), for every
@@ -62,19 +62,72 @@ Proof. exact sample_deliver_roundtrip. Qed.
 (* ---- "For every byte sequence": what is claimed about the io.Reader the octets come from.
    sms.Unmarshal decodes from ONE bufio.Reader over its argument, with four primitives: ReadByte, readFull (a
    multi-octet field), Peek (message type detection) and Discard (enhanced validity period).  Model/TpduReader.v
-   models that bufio.Reader over a reader which hands out the octets in pieces of ANY positive sizes (a schedule)
-   and then io.EOF, with the last piece or on the next call.  For every such reader state (invariant [inv]: a
-   pending io.EOF means the source is exhausted; at most 4096 octets buffered), every primitive returns what the
-   list primitive of Model/Tpdu.v - the one all theorems above are about - returns on the octets still to come
-   ([content]), and leaves a reader whose octets still to come are the list's rest.  Hence the outcome of the
-   decoder, a composition of these four, depends on the octets only.
+   models that bufio.Reader over a reader which hands out the octets in pieces of ANY positive sizes (a schedule:
+   down to one octet per Read) and then io.EOF, with the last piece or on the next call, and writes the whole
+   decoder over it ([unmarshal_gen_on]: getType, the struct switch, the field walk with every field decoder, the
+   reader state - buffer, pending error, rest of the source and of the schedule - threaded through; [unmarshal_reader
+   E data sched eofd] = that decoder on bufio.NewReader of the reader given by data / sched / eofd).
 
-   FULL STATEMENT (not proved; would need the decoder of Model/Tpdu.v re-expressed over [breader]):
-     forall data sched eofd, unmarshal_on (new_reader data sched eofd) = sms_unmarshal data.
-   Proved: the statement for each primitive (this theorem, _partial in that sense) + [new_reader] satisfies [inv]
-   and holds exactly the input.  The harness checks the composed statement directly on every input of C18 and C19
-   (four chunking readers) and ties the bufio model by scripts of primitives run on a real bufio.Reader. *)
-Theorem C18_reader_independence_partial :
+   THE COMPOSED STATEMENT (proved): for every environment of struct layouts, every octet string, every two schedules
+   of read sizes and both ways of delivering io.EOF, the decoder returns the same outcome - the same structure and
+   field values, or the same error, (or Panic alike) - and that outcome is the one of the list decoder of Model/Tpdu.v
+   all other theorems of C18 / C19 speak about.  So the decoder is a function of the octets, not of how the reader
+   hands them out, and every theorem about [unmarshal] / [sms_unmarshal] holds behind every such reader.
+   [octets data] (every element < 256) is what makes the list a string of OCTETS; it is used for the first one only
+   (getType peeks first octet + 3 octets, bufio can peek 4096) and cannot be dropped for lists of arbitrary numbers
+   (C18_reader_octets_needed).  Proof: simulation, the per-primitive theorems below as base cases, induction over the
+   field walk with the invariant [inv b] /\ "octets still to come of the reader = rest of the list" (Proofs/TpduReaderCompose.v). *)
+Theorem C18_reader_independence :
+  forall (E : env) (data : bytes), octets data ->
+  forall (sched1 sched2 : list nat) (eofd1 eofd2 : bool),
+    unmarshal_reader E data sched1 eofd1 = unmarshal_reader E data sched2 eofd2 /\
+    unmarshal_reader E data sched1 eofd1 = unmarshal E data.
+Proof. exact reader_independence. Qed.
+(* the same for a bufio.Reader in ANY state satisfying the invariant (octets already buffered, schedule partly used,
+   io.EOF pending), also for the decoder before the D18 fix: it decodes the octets still to come as the list decoder does *)
+Theorem C18_reader_independence_any_state :
+  forall (legacy : bool) (E : env) (b : breader), inv b -> octets (content b) ->
+    unmarshal_gen_on legacy E b = unmarshal_gen legacy E (content b).
+Proof. exact reader_independence_any_state. Qed.
+(* the shipped code; and C18 itself transferred to every reader *)
+Theorem C18_reader_independence_shipped :
+  forall data sched eofd, octets data -> sms_unmarshal_reader data sched eofd = sms_unmarshal data.
+Proof. exact sms_unmarshal_reader_eq. Qed.
+Theorem C18_unmarshal_never_panics_any_reader :
+  forall E, env_ok E -> forall data sched eofd, octets data -> unmarshal_reader E data sched eofd <> Panic.
+Proof. exact unmarshal_reader_never_panics. Qed.
+Theorem C18_unmarshal_total_any_reader :
+  forall data sched eofd, octets data ->
+    sms_unmarshal_reader data sched eofd <> Panic /\
+    ((exists e, sms_unmarshal_reader data sched eofd = Err e) \/
+     (exists name l vs, sms_unmarshal_reader data sched eofd = Ok (name, vs) /\ In name struct_names /\
+        find_layout tpdu_layouts name = Some l /\
+        Forall2 (fun f v => val_fits (f_dkind f) v) (tl_fields l) vs)).
+Proof. exact sms_unmarshal_reader_total. Qed.
+(* a list whose first element is 5000 is not an octet string: bufio cannot peek 5003 octets, the list model can *)
+Theorem C18_reader_octets_needed :
+  let data := 5000 :: repeat 0 (N.to_nat 5100) in
+  unmarshal_reader sms_env data [] false = Err EEOF /\ is_ok (unmarshal sms_env data) = true.
+Proof. exact octets_hypothesis_needed. Qed.
+(* non-vacuity: the captured SMS-DELIVER (an octet string) read one octet per call with io.EOF afterwards, in pieces of
+   3, 1, 7, 2, 100 octets with io.EOF together with the last piece, and as a list: the same 7-field Deliver; its
+   20-octet prefix through two schedules and as a list: the same error *)
+Example C18_reader_example :
+  octets sample_deliver /\
+  exists vs, List.length vs = 7%nat /\
+    sms_unmarshal_reader sample_deliver [] false = Ok ("Deliver"%string, vs) /\
+    sms_unmarshal_reader sample_deliver [3; 1; 7; 2; 100]%nat true = Ok ("Deliver"%string, vs) /\
+    sms_unmarshal sample_deliver = Ok ("Deliver"%string, vs) /\
+    (exists e, sms_unmarshal_reader (firstn 20 sample_deliver) [] false = Err e /\
+               sms_unmarshal_reader (firstn 20 sample_deliver) [19; 1]%nat true = Err e /\
+               sms_unmarshal (firstn 20 sample_deliver) = Err e).
+Proof. exact (conj sample_deliver_octets sample_deliver_two_schedules). Qed.
+
+(* The simulation steps: for every reader state satisfying [inv] (a pending io.EOF means the source is exhausted; at
+   most 4096 octets buffered) every primitive returns what the list primitive of Model/Tpdu.v returns on the octets
+   still to come ([content]) and leaves a reader whose octets still to come are the list's rest.  (Was
+   C18_reader_independence_partial while the composed statement above was open.) *)
+Theorem C18_reader_primitives_independent :
   forall b : breader, inv b ->
     (match read_byte (content b) with
      | Ok (x, rest) => exists b', br_read_byte b = Ok (x, b') /\ content b' = rest /\ inv b'
